@@ -519,3 +519,61 @@ func TestC04Verdict(t *testing.T) {
 		})
 	}
 }
+
+// TestC04RareBranches searches, with the reference signer only, for messages
+// whose signing run takes one of the rare paths (hint weight > omega, c*t0
+// overflow, final hint weight exactly omega, 15 or more rounds) and compares
+// circl's signature bytes on exactly those. Plain enumeration of a message
+// counter under one key per scheme; sharded by counter.
+func TestC04RareBranches(t *testing.T) {
+	defer vlib.Done()
+	selftest(t)
+	for _, s := range schemes {
+		p := s.p
+		sub := "rare-branches/" + s.name
+		seed := make([]byte, 32)
+		vlib.ExpandInto(seed, uint64(vlib.Seed)*131+7)
+		pk, sk, _, _ := s.derive(seed)
+		_, skb := p.KeyGen(seed)
+		n := vlib.N(200, 2500)
+		for i := 0; i < n; i++ {
+			ctr := uint64(i)*uint64(vlib.NShards) + uint64(vlib.Shard)
+			msg := []byte(fmt.Sprintf("C04 rare-branch search %d/%d", vlib.Seed, ctr))
+			sig, tr := p.Sign(skb, msg, nil, make([]byte, 32))
+			vlib.Eval(sub)
+			_, _, ct0, hint := tr.Counts()
+			total, _ := p.HintWeight(sig)
+			var cls []string
+			if hint > 0 {
+				cls = append(cls, "branch=hint-weight>omega")
+			}
+			if ct0 > 0 {
+				cls = append(cls, "branch=ct0-overflow")
+			}
+			if total == p.Omega {
+				cls = append(cls, "final-hint-weight=omega")
+			}
+			if len(tr.Rounds) >= 15 {
+				cls = append(cls, "rounds>=15")
+			}
+			if len(cls) == 0 {
+				continue
+			}
+			csig, err := s.signTo(sk, msg, nil)
+			for _, c := range cls {
+				vlib.NonTrivial(sub, c, seed, msg)
+			}
+			vlib.Sample(sub, cls[0], fmt.Sprintf("scheme=%s seed=%x msg=%q rounds=%d classes=%v", s.name, seed, msg, len(tr.Rounds), cls))
+			if err != nil || !bytes.Equal(csig, sig) {
+				if !vlib.ReportDirect(t, "C04/sign/"+s.name+"/rare-branch", fmt.Sprintf("seed %x msg %q (%v, %d rounds): circl signature differs from the specification at byte %d (err=%v)", seed, msg, cls, len(tr.Rounds), firstDiff(csig, sig), err), map[string]interface{}{"scheme": s.name, "seed": fmt.Sprintf("%x", seed), "msg": string(msg)}) {
+					return
+				}
+			}
+			if !s.verify(pk, msg, nil, sig) {
+				if !vlib.ReportDirect(t, "C04/verify-verdict/"+s.name+"/rare-branch", fmt.Sprintf("seed %x msg %q: valid signature rejected", seed, msg), map[string]interface{}{"scheme": s.name, "seed": fmt.Sprintf("%x", seed), "msg": string(msg)}) {
+					return
+				}
+			}
+		}
+	}
+}
